@@ -113,8 +113,7 @@ func vC14Hook(s *vKindSys, h []string) {
 	}
 	// (4),(5): every reported score is within the quantisation error of the true
 	// Euclidean distance between preprocessed query and preprocessed vector
-	qa := vQueryAlphabet(s.cfg.Dim)
-	qa = qa[:len(qa)-1]
+	qa := s.qa
 	for qi, q := range qa {
 		qp := vPreprocess64(s.cfg.Metric, q)
 		res, err := vRunVecQuery(s.idx, vVecQuery{Q: q, K: -1, NProb: -1})
@@ -135,7 +134,7 @@ func vC14Hook(s *vKindSys, h []string) {
 				eu += x * x
 			}
 			eu = math.Sqrt(eu)
-			tol := 1e-5 * math.Max(1, eu)
+			tol := 1e-5 * math.Max(math.Max(1, eu), math.Max(qerr[id], float64(r.Score)))
 			if math.Abs(float64(r.Score)-eu) > qerr[id]+tol {
 				s.c.Violation("score-outside-quantisation-error", "", s.cfgS, h, fmt.Sprintf("q=%v id %d: score %v, Euclidean distance %v, quantisation error %v", q, id, r.Score, eu, qerr[id]))
 			}
@@ -233,6 +232,13 @@ func vC14TrainBoundary(c *vCtx, cfg vVecCfg) {
 			continue
 		}
 		ts := vLattice(cfg.Dim, n)
+		if cfg.Train == -3 {
+			for _, v := range ts {
+				for j := range v {
+					v[j] += 1000
+				}
+			}
+		}
 		nodes := make([]VectorNode, n)
 		for i := range ts {
 			nodes[i] = *NewVectorNodeWithID(uint32(1000+i), ts[i])
@@ -294,6 +300,14 @@ func vC14Configs(tier string) []vVecCfg {
 			}
 		}
 	}
+	// data with a large common offset (Euclidean family only: cosine normalises it away)
+	for _, metric := range []DistanceKind{Euclidean, L2Squared} {
+		for _, nb := range []int{2, 4} {
+			out = append(out, vVecCfg{Kind: "pq", Metric: metric, Dim: 2, M: 2, NBits: nb, Train: -3})
+			out = append(out, vVecCfg{Kind: "pq", Metric: metric, Dim: 4, M: 2, NBits: nb, Train: -3})
+			out = append(out, vVecCfg{Kind: "ivfpq", Metric: metric, Dim: 2, NList: 2, M: 1, NBits: nb, Train: -3})
+		}
+	}
 	// larger numbers of subspaces (M = 3..8, one or two components each): table / code
 	// indexing per subspace
 	for _, metric := range metrics {
@@ -320,6 +334,13 @@ func vC14Sys(c *vCtx, cfg vVecCfg) *vKindSys {
 	}
 	s := newKindSys(c, cfg, 3)
 	s.train = vLattice(cfg.Dim, n)
+	if cfg.Train == -3 {
+		for _, v := range s.train {
+			for j := range v {
+				v[j] += 1000
+			}
+		}
+	}
 	s.hook = vC14Hook
 	s.noMulti = true
 	return s
